@@ -578,7 +578,7 @@ if self.base_settings.allow_compression {
 }
 
 impl<B: Body> PreparedRequest<B> {
-//@@ fn src/request/mod.rs impl<B:~Body>~PreparedRequest<B> send props=C09,C10,C08,C05,C19,C11
+//@@ fn src/request/mod.rs impl<B:~Body>~PreparedRequest<B> send props=C09,C10,C08,C05,C19,C11,C07
 //@@ closure
 |timeout|
 //@@ =>
@@ -622,7 +622,7 @@ let mut stream = BaseStream::connect(
 //@@ with
             proof {
                 assert(dialled(&stream) == (hop, proxy)); // id: connected_for_this_hops_url_and_proxy [C08,C10]
-                assert(host_is_for(&self.sp_headers(), if url_scheme_is(&hop, "http") && proxy is Some { &proxy.unwrap() } else { &hop })); // id: host_field_belongs_to_this_hop [C08,C10]
+                assert(host_is_for(&self.sp_headers(), if url_scheme_is(&hop, "http") && proxy is Some { &proxy.unwrap() } else { &hop })); // id: host_field_belongs_to_this_hop [C08,C10,C07]
             }
 //@@ splice after_stmt
 let resp = parse_response(
